@@ -157,85 +157,145 @@ def run_proof(built, proof, workdir, extra_defs=(), trace=False):
     res = {'proof': name, 'unit': u.NAME, 'enforce': proof.get('enforce') or proof.get('lemma'), 'status': 'error', 'obligations': [], 'cmds': [], 'seconds': 0.0,
            'mode': 'unbounded' if proof.get('loops', 'none') in ('contracts', 'none') else 'bounded'}
     mode = proof.get('loops', 'none')
-    cc = ['goto-cc', '-I', os.path.join(ROOT, 'stubs'), '--function', 'h_' + name] + list(extra_defs) + list(proof.get('defs', [])) + [built['cfile'], '-o', gb0]
-    rc, so, se, dt = _run(cc, 300, None)
-    res['cmds'].append(' '.join(cc))
-    res['seconds'] += dt
-    if rc != 0:
-        res['error'] = 'goto-cc failed: ' + (se or so)[-2000:]
-        return res
-    gi = ['goto-instrument', '--dfcc', 'h_' + name]
-    if proof.get('enforce'):
-        # 'rec': a recursive function is checked with its recursive calls replaced by its own contract (induction over the call depth)
-        gi += ['--enforce-contract-rec' if proof.get('rec') else '--enforce-contract', proof['enforce']]
     ctext = open(built['cfile']).read()
-    used = [x for x in ([] if proof.get('exec') else getattr(u, 'ALWAYS_REPLACE', [])) if x not in proof.get('no_replace', []) and ctext.count(x + '(') >= (2 if (x + '(') in getattr(u, 'PRELUDE', '') + getattr(u, 'PRELUDE_AFTER_RECORDS', '') else 1)]
-    for r in list(proof.get('replace', [])) + used:
-        gi += ['--replace-call-with-contract', r]
-    if mode == 'contracts':
-        gi += ['--apply-loop-contracts']
-    gi += [gb0, gb1]
-    rc, so, se, dt = _run(gi, 600, None)
-    res['cmds'].append(' '.join(gi))
-    res['seconds'] += dt
-    if rc != 0:
-        res['error'] = 'goto-instrument failed: ' + (so + se)[-3000:]
-        return res
-    if 'skipping instrumentation' in (so + se) and mode == 'contracts':
-        repl = set(proof.get('replace', []))
-        calls = built['L'].calls
-        reach, todo = set(), [proof.get('enforce')]
-        while todo:
-            f = todo.pop()
-            if f in reach or f is None:
-                continue
-            reach.add(f)
-            for c in calls.get(f, ()):
-                if c not in repl:
-                    todo.append(c)
-        bad = []
-        for l in (so + se).split('\n'):
-            m = re.search(r'loop (\S+)\.\d+ does not have a contract', l)
-            if m and (m.group(1) in reach or not proof.get('enforce')):
-                bad.append(l.strip())
-        if bad:
-            res['error'] = 'a loop without contract was skipped by goto-instrument (rule 15): ' + '; '.join(bad)[:500]
+
+    def compile_instrument(tag, more_defs):
+        """goto-cc + goto-instrument --dfcc; returns (instrumented binary, None) or (None, error text)"""
+        g0, g1 = os.path.join(pdir, 'a%s.gb' % tag), os.path.join(pdir, 'b%s.gb' % tag)
+        cc = ['goto-cc', '-I', os.path.join(ROOT, 'stubs'), '--function', 'h_' + name] + list(extra_defs) + list(proof.get('defs', [])) + list(more_defs) + [built['cfile'], '-o', g0]
+        rc, so, se, dt = _run(cc, 300, None)
+        res['cmds'].append(' '.join(cc))
+        res['seconds'] += dt
+        if rc != 0:
+            return None, 'goto-cc failed: ' + (se or so)[-2000:]
+        gi = ['goto-instrument', '--dfcc', 'h_' + name]
+        if proof.get('enforce'):
+            # 'rec': a recursive function is checked with its recursive calls replaced by its own contract (induction over the call depth)
+            gi += ['--enforce-contract-rec' if proof.get('rec') else '--enforce-contract', proof['enforce']]
+        used = [x for x in ([] if proof.get('exec') else getattr(u, 'ALWAYS_REPLACE', [])) if x not in proof.get('no_replace', []) and ctext.count(x + '(') >= (2 if (x + '(') in getattr(u, 'PRELUDE', '') + getattr(u, 'PRELUDE_AFTER_RECORDS', '') else 1)]
+        for r in list(proof.get('replace', [])) + used:
+            gi += ['--replace-call-with-contract', r]
+        if mode == 'contracts':
+            gi += ['--apply-loop-contracts']
+        gi += [g0, g1]
+        rc, so, se, dt = _run(gi, 600, None)
+        res['cmds'].append(' '.join(gi))
+        res['seconds'] += dt
+        if rc != 0:
+            return None, 'goto-instrument failed: ' + (so + se)[-3000:]
+        if 'skipping instrumentation' in (so + se) and mode == 'contracts':
+            repl = set(proof.get('replace', []))
+            calls = built['L'].calls
+            reach, todo = set(), [proof.get('enforce')]
+            while todo:
+                f = todo.pop()
+                if f in reach or f is None:
+                    continue
+                reach.add(f)
+                for c in calls.get(f, ()):
+                    if c not in repl:
+                        todo.append(c)
+            bad = []
+            for l in (so + se).split('\n'):
+                m = re.search(r'loop (\S+)\.\d+ does not have a contract', l)
+                if m and (m.group(1) in reach or not proof.get('enforce')):
+                    bad.append(l.strip())
+            if bad:
+                return None, 'a loop without contract was skipped by goto-instrument (rule 15): ' + '; '.join(bad)[:500]
+        try:
+            os.remove(g0)
+        except OSError:
+            pass
+        return g1, None
+
+    def cbmc_run(gb, checks, props, tag):
+        cb = ['cbmc', gb] + list(checks) + SOLVER + ['--object-bits', str(proof.get('object_bits', 10)), '--json-ui', '--verbosity', '6']
+        if isinstance(mode, tuple) and mode[0] == 'unwind':
+            cb += ['--unwind', str(mode[1]), '--unwinding-assertions']
+        cb += list(proof.get('flags', [])) if checks else [f for f in proof.get('flags', []) if not f.endswith('-check')]
+        for pid in props:
+            cb += ['--property', pid]
+        if trace:
+            cb += ['--trace']
+        rc, so, se, dt = _run(cb, proof.get('timeout', TIMEOUT_S), None, mem=(proof['mem_gb'] << 30) if proof.get('mem_gb') else None)
+        res['cmds'].append(' '.join(cb[:40]) + (' ...' if len(cb) > 40 else ''))
+        res['seconds'] += dt
+        res['solver_s'] = res.get('solver_s', 0) + dt
+        open(os.path.join(pdir, 'cbmc%s.json' % tag), 'w').write(so)
+        if rc == -9:
+            return None, 'cbmc: ' + se
+        try:
+            items = json.loads(so)
+        except Exception:
+            return None, 'cbmc output not JSON (rc=%d): %s %s' % (rc, so[-1500:], se[-500:])
+        obl, msgs = None, []
+        for it in items:
+            if 'result' in it:
+                obl = it['result']
+            if it.get('messageType') in ('ERROR',):
+                msgs.append(it.get('messageText', ''))
+            if it.get('messageType') == 'WARNING' and 'ignoring' in it.get('messageText', ''):
+                msgs.append(it.get('messageText', ''))
+        if obl is None:
+            return None, 'cbmc gave no result list (rc=%d): %s' % (rc, '; '.join(msgs)[-1500:] or so[-1500:])
+        if any('ignoring' in m for m in msgs):
+            return None, 'cbmc ignored a quantifier: ' + '; '.join(msgs)[:500]
+        return obl, None
+
+    # (1) vacuity pass: the program WITH its reachability markers, only the markers as properties and none of the generated checks -- a small
+    #     formula, one satisfying assignment per marker.  (2) proof pass: the program without the markers, every obligation, one UNSAT call.
+    #     (In one run CBMC's all-properties loop solves once per failing marker on the full formula and builds a trace each time: that was
+    #     most of the time of the large proofs.)  When a counterexample trace is wanted the old single run is used.
+    obls = []
+    if trace or os.environ.get('VS_SINGLE_RUN'):
+        gb, err = compile_instrument('', [])
+        if err:
+            res['error'] = err
             return res
-    cb = ['cbmc', gb1] + CBMC_CHECKS + SOLVER + ['--object-bits', str(proof.get('object_bits', 10)), '--json-ui', '--verbosity', '6']
-    if isinstance(mode, tuple) and mode[0] == 'unwind':
-        cb += ['--unwind', str(mode[1]), '--unwinding-assertions']
-    cb += list(proof.get('flags', []))
-    if trace:
-        cb += ['--trace']
-    rc, so, se, dt = _run(cb, proof.get('timeout', TIMEOUT_S), None, mem=(proof['mem_gb'] << 30) if proof.get('mem_gb') else None)
-    res['cmds'].append(' '.join(cb))
-    res['seconds'] += dt
-    res['solver_s'] = dt
-    open(os.path.join(pdir, 'cbmc.json'), 'w').write(so)
-    if rc == -9:
-        res['error'] = 'cbmc: ' + se
-        return res
-    try:
-        items = json.loads(so)
-    except Exception as e:
-        res['error'] = 'cbmc output not JSON (rc=%d): %s %s' % (rc, so[-1500:], se[-500:])
-        return res
-    obl = None
-    msgs = []
-    for it in items:
-        if 'result' in it:
-            obl = it['result']
-        if it.get('messageType') in ('ERROR',):
-            msgs.append(it.get('messageText', ''))
-        if it.get('messageType') == 'WARNING' and 'ignoring' in it.get('messageText', ''):
-            msgs.append(it.get('messageText', ''))
-    if obl is None:
-        res['error'] = 'cbmc gave no result list (rc=%d): %s' % (rc, '; '.join(msgs)[-1500:] or so[-1500:])
-        return res
-    if any('ignoring' in m for m in msgs):
-        res['error'] = 'cbmc ignored a quantifier: ' + '; '.join(msgs)[:500]
-        return res
-    for o in obl:
+        obl, err = cbmc_run(gb, CBMC_CHECKS, [], '')
+        if err:
+            res['error'] = err
+            return res
+        obls = obl
+        gbs = [gb]
+    else:
+        # the two passes run side by side (two solver processes per proof)
+        def vacuity_pass():
+            gbr, err = compile_instrument('r', [])
+            if err:
+                return None, [], err
+            sp = subprocess.run(['cbmc', gbr, '--show-properties', '--json-ui'], capture_output=True, text=True)
+            marker_ids = []
+            try:
+                for it in json.loads(sp.stdout):
+                    for pr in it.get('properties', []) if isinstance(it, dict) else []:
+                        if (pr.get('description') or '').startswith('REACH:'):
+                            marker_ids.append(pr.get('name'))
+            except Exception as e:
+                return gbr, [], 'cbmc --show-properties failed: %s %s' % (e, sp.stderr[-300:])
+            if not marker_ids:
+                return gbr, [], None
+            oblr, err = cbmc_run(gbr, [], marker_ids, 'r')
+            if err:
+                return gbr, [], 'vacuity pass: ' + err
+            return gbr, [o for o in oblr if (o.get('description') or '').startswith('REACH:')], None
+
+        def proof_pass():
+            gbm, err = compile_instrument('m', ['-DVS_NO_REACH'])
+            if err:
+                return None, [], err
+            oblm, err = cbmc_run(gbm, CBMC_CHECKS, [], 'm')
+            return gbm, (oblm or []), err
+        with ThreadPoolExecutor(max_workers=2) as ex2:
+            fr, fm = ex2.submit(vacuity_pass), ex2.submit(proof_pass)
+            gbr, oblr, errr = fr.result()
+            gbm, oblm, errm = fm.result()
+        if errr or errm:
+            res['error'] = errr or errm
+            return res
+        obls = oblr + oblm
+        gbs = [g for g in (gbr, gbm) if g]
+    for o in obls:
         sl = o.get('sourceLocation', {})
         if o.get('description') == 'assertion' and not sl.get('file') and '_wrapped_for_contract_checking.' in (o.get('property') or ''):
             # dfcc checks the invariant of a loop whose head is its body (for(;;)) at the back edge and gives the assertion no text
@@ -247,7 +307,7 @@ def run_proof(built, proof, workdir, extra_defs=(), trace=False):
         res['obligations'].append(rec)
     res['status'] = 'ok'
     if not os.environ.get('VS_KEEP'):
-        for f in (gb0, gb1):
+        for f in gbs:
             try:
                 os.remove(f)
             except OSError:
